@@ -72,7 +72,8 @@ Fixpoint obss_eqb (a b : list obs) : bool :=
   match a, b with [], [] => true | x :: a', y :: b' => obs_eqb x y && obss_eqb a' b' | _, _ => false end.
 
 (* transaction with the implementation's observation: result (-1/0/1 as 0/1/2), events, scripted observations *)
-Definition tx_obs : Type := tx * N * list ev_obs * list obs.
+(* [bool]: ExecuteTransactionRequest.DryRun — executed over the committed state with a fresh staged store, no trace left *)
+Definition tx_obs : Type := tx * bool * N * list ev_obs * list obs.
 
 Definition model_events (l : logger) : list ev_obs :=
   map (fun e => (ev_name e, ev_data e, match ev_topics e with _ :: t => 0 :: t | [] => [] end, ev_index e, ev_height e, true))
@@ -183,14 +184,21 @@ Fixpoint opts_eqb (a b : list (option bytes)) : bool :=
   end.
 
 (* the block against the reference semantics: Some (final map, all answers as the reference says) or None = not applicable *)
-Fixpoint spec_block (height : N) (m : store) (rs : psn) (txs : list tx_obs) (ok : bool) : option (store * bool) :=
+Fixpoint spec_block (height : N) (base : store) (m : store) (rs : psn) (txs : list tx_obs) (ok : bool) : option (store * bool) :=
   match txs with
   | [] => Some (m, ok)
-  | (t, r, evs, os) :: rest =>
+  | (t, dry, r, evs, os) :: rest =>
+      if dry then
+        match spec_tx height base {| ps_count := 0; ps_saved := [] |} t with
+        | None => spec_block height base m rs rest ok
+        | Some (_, _, g, evs', r') =>
+            spec_block height base m rs rest (ok && (r =? r') && evs_eqb evs' evs && opts_eqb g (gots os))
+        end
+      else
       match spec_tx height m rs t with
       | None => None
       | Some (m', rs', g, evs', r') =>
-          spec_block height m' rs' rest (ok && (r =? r') && evs_eqb evs' evs && opts_eqb g (gots os))
+          spec_block height base m' rs' rest (ok && (r =? r') && evs_eqb evs' evs && opts_eqb g (gots os))
       end
   end.
 
@@ -198,11 +206,13 @@ Fixpoint spec_block (height : N) (m : store) (rs : psn) (txs : list tx_obs) (ok 
 Fixpoint run_txs (s : store) (height : N) (c : cache) (v : vsnaps) (txs : list tx_obs) (am asp : bool) : cache * bool * bool :=
   match txs with
   | [] => (c, am, asp)
-  | (t, r, evs, os) :: rest =>
-      let st := {| x_cache := c; x_root := v; x_log := new_logger height |} in
+  | (t, dry, r, evs, os) :: rest =>
+      let st := if dry then {| x_cache := []; x_root := no_snaps; x_log := new_logger height |}
+                else {| x_cache := c; x_root := v; x_log := new_logger height |} in
       let '(st', res, o) := execute_tx s st t in
       let ok_m := (xres_code res =? r) && evs_eqb (model_events (x_log st')) evs && obss_eqb o os in
-      run_txs s height (x_cache st') (x_root st') rest (am && ok_m) (asp && tx_spec height r evs)
+      if dry then run_txs s height c v rest (am && ok_m) (asp && tx_spec height r evs)
+      else run_txs s height (x_cache st') (x_root st') rest (am && ok_m) (asp && tx_spec height r evs)
   end.
 
 Inductive expect := ENone | ERight | EWrong.
@@ -255,7 +265,7 @@ Definition check_step (m : mstate) (st : step) : N * mstate :=
                 then {| m_db := a'; m_roots := (height, right) :: m_roots m; m_states := (height, fst d) :: m_states m;
                         m_tip := height |}
                 else m in
-      let ref := spec_block height (a_state (m_db m)) {| ps_count := 0; ps_saved := [] |} txs true in
+      let ref := spec_block height (a_state (m_db m)) (a_state (m_db m)) {| ps_count := 0; ps_saved := [] |} txs true in
       (code (am && res_eqb mr r && db_matches a' d)
             (asp && (if committed then rootref && treeref else true) &&
              (* reference semantics: answers of every transaction, and the committed state *)
